@@ -229,6 +229,10 @@ Exec(ks, name, args) ==
          ELSE IF Has(ks, A(args, 2)) THEN Res(IntR(0), ks)
          ELSE Res(IntR(1), Put(Drop(ks, A(args, 1)), A(args, 2), ks[A(args, 1)]))
     [] name = "KEYS" /\ n = 1 -> ResC(BulkArr(SetToSeq({k \in DOMAIN ks : Match(A(args, 1), k)})), ks, "bag")
+    \* one complete SCAN call (cursor 0, COUNT larger than the keyspace): the selected keys; the cursor value is not judged
+    [] name = "SCAN" /\ n = 5 /\ IsInt(args[1]) /\ args[1].big = "" /\ args[1].n = 0 /\ args[2].k = "word" /\ args[2].w = "MATCH"
+         /\ args[4].k = "word" /\ args[4].w = "COUNT" /\ IsInt(args[5]) /\ args[5].big = "" /\ args[5].n > Cardinality(DOMAIN ks) ->
+         ResC(Arr(<<Bulk(<<48>>), BulkArr(SetToSeq({k \in DOMAIN ks : Match(A(args, 3), k)}))>>), ks, "scan")
     \* hashes
     [] name \in {"HSET", "HSETNX"} /\ n = 3 /\ TypeOK(ks, A(args, 1), "hash") ->
          LET h == HashOf(ks, A(args, 1)) IN
@@ -327,5 +331,7 @@ ReplyMatches(r, v) ==
     [] r.cmp = "error" -> v.t = "err"
     [] r.cmp = "bag"   -> v.t = "arr" /\ Len(v.e) = Len(r.reply.e) /\ BagOf(v) = BagOf(r.reply)
     [] r.cmp = "pairs" -> v.t = "arr" /\ Len(v.e) = Len(r.reply.e) /\ PairsOf(v) = PairsOf(r.reply)
+    [] r.cmp = "scan"  -> /\ v.t = "arr" /\ Len(v.e) = 2 /\ v.e[1].t = "bulk" /\ v.e[2].t = "arr"
+                          /\ Len(v.e[2].e) = Len(r.reply.e[2].e) /\ BagOf(v.e[2]) = BagOf(r.reply.e[2])
     [] OTHER -> TRUE
 =============================================================================
